@@ -97,6 +97,8 @@ class Server:
         self.trackers = []      # (pubsub, prefix): BCAST tracking redirected to that connection
         self.next_client_id = 1
         self.log = []           # commands received (for the harness)
+        self.batch = None       # keys modified in the current event-loop cycle of the server (BCAST invalidations are sent per cycle, de-duplicated)
+        self.depth = 0
 
     # ---- clock / expiry --------------------------------------------------------
     def now(self):
@@ -104,14 +106,35 @@ class Server:
 
     def purge(self):
         t = self.now()
-        for k in [k for k, e in self.data.items() if e[2] is not None and e[2] <= t]:
-            del self.data[k]
-            self.touched(k)
+        self.begin()
+        try:
+            for k in [k for k, e in self.data.items() if e[2] is not None and e[2] <= t]:
+                del self.data[k]
+                self.touched(k)
+        finally:
+            self.end()
 
     def touched(self, key):
+        if self.batch is not None:
+            self.batch[key] = True
+            return
+        self._send([key])
+
+    def _send(self, keys):
         for ps, prefix in list(self.trackers):
-            if key.startswith(prefix):
-                ps.push({"type": "message", "pattern": None, "channel": INVALIDATE_CHAN, "data": [key.encode()]})
+            mine = [k.encode() for k in keys if k.startswith(prefix)]
+            if mine:
+                ps.push({"type": "message", "pattern": None, "channel": INVALIDATE_CHAN, "data": mine})
+
+    def begin(self):
+        if self.depth == 0: self.batch = {}
+        self.depth += 1
+
+    def end(self):
+        self.depth -= 1
+        if self.depth == 0:
+            keys, self.batch = list(self.batch), None
+            if keys: self._send(keys)
 
     def drop_connections(self):
         """the server closes every pub/sub connection (restart, network cut)"""
@@ -132,12 +155,16 @@ class Server:
         if self.down:
             raise ConnectionError("server is down")
         name = _s(args[0]).upper()
-        self.purge()
-        self.log.append(name)
-        fn = getattr(self, "c_" + name.replace(" ", "_"), None)
-        if fn is None:
-            raise ResponseError(f"unknown command '{name}' (outside the modelled server)")
-        return fn(*args[1:])
+        self.begin()
+        try:
+            self.purge()
+            self.log.append(name)
+            fn = getattr(self, "c_" + name.replace(" ", "_"), None)
+            if fn is None:
+                raise ResponseError(f"unknown command '{name}' (outside the modelled server)")
+            return fn(*args[1:])
+        finally:
+            self.end()
 
     # ---- strings ------------------------------------------------------------------
     def c_PING(self, *a): return b"PONG" if not a else _b(a[0])
